@@ -326,7 +326,13 @@ pub fn suite_faults(ctx: &Ctx, thorough: bool) {
                 let inp = || json!({"string": s, "fault": what, "from": good});
                 match parse_string(&s) {
                     Err(m) => ctx.violate("C06.panic", "parsing never panics", inp(), m, "no panic".into()),
-                    Ok(Ok(p)) => ctx.violate("C05.fault", "a string with this defect is never accepted", inp(), format!("{:?}", Obs::of(&p)), format!("Err({want:?})")),
+                    Ok(Ok(p)) => {
+                        ctx.violate("C05.fault", "a string with this defect is never accepted", inp(), format!("{:?}", Obs::of(&p)), format!("Err({want:?})"));
+                        // the same acceptance seen from C07: an escape that hides a '/' or a dot segment got through
+                        if what.contains("segment") {
+                            ctx.violate("C07.segments", "an escape can neither split nor join segments / climb upwards", inp(), format!("{:?}", Obs::of(&p)), format!("Err({want:?})"));
+                        }
+                    },
                     Ok(Err(k)) => {
                         ctx.nontrivial();
                         if k != want {
